@@ -30,12 +30,12 @@ XSD = ('<xs:schema xmlns:xs="http://www.w3.org/2001/XMLSchema" targetNamespace="
        '</xs:schema>')
 
 
-def gen_doc(rng, max_depth=4):
+def gen_doc(rng, max_depth=4, prefixes=None):
     """Abstract tree: node = {'uri','local','decls':[(prefix,uri)],'prefix','attrs':[(prefix,uri,local)],'kids':[...]}"""
     def node(scope, depth, root=False):
         decls = []
         if root or rng.random() < 0.55:
-            for p in rng.sample(PREFIXES, rng.randint(1, 3)):
+            for p in rng.sample(prefixes or PREFIXES, rng.randint(1, 3)):
                 if p == '':
                     u = rng.choice(URIS + [''])
                     if u == '' and scope.get('') in (None, ''):
@@ -181,6 +181,113 @@ def check_mapper(ctx, cases):
                                                        'theorem': 'C17_map_unmap / C17_set_ctx_inv'},
                           no_input=(bad[0] != 'primary'))
         ctx.sample({'xml': xml, 'mapped': [x['mapped'] for x in o][:8]}, cap=3)
+
+
+# ------------------------------------------------------------------ subject 1b: collapsed / root-only mapper
+C_IMPORTS = 'From XV Require Import Base Collapsed.'
+C_DEFS = '''Fixpoint tr (c : bool) (st : fwd * rvs) (ops : list ((nat * list (pfx * N)) * (N * N)))
+  : list (bool * (fwd * rvs) * key) :=
+  match ops with
+  | [] => []
+  | (op, (u, l)) :: rest =>
+      match elem_step c st op with
+      | Some st1 => (true, st1, map_key st1 u l) :: tr c st1 rest
+      | None => [(false, st, KLoc 0)]
+      end
+  end.
+'''
+C_PREFIXES = ['p', 'q', '', 'p0', 'q9', 'default', 'p1']
+STEMS = {'': 0, 'default': 1, 'p': 7, 'q': 8}
+
+
+def pfx_code(p):
+    """prefix -> (stem, k) as in Collapsed.v: k = 0 without a numeric suffix, i + 1 for the suffix i"""
+    m = re.match(r'^(.*?)(\d+)?$', p)
+    return STEMS[m.group(1)], 0 if m.group(2) is None else int(m.group(2)) + 1
+
+
+def subject_collapsed(case):
+    import xmlschema
+    xml = render(case['doc'])
+    res = xmlschema.XMLResource(xml)
+    conv = xmlschema.XMLSchemaConverter(source=res, xmlns_processing=case['mode'])
+    order = []
+
+    def walk(e, lvl):
+        order.append((e, lvl))
+        for c in e:
+            walk(c, lvl + 1)
+    walk(res.root, 0)
+    out = []
+    for e, lvl in order:
+        conv.set_xmlns_context(e, lvl)
+        out.append({'ns': list(conv.namespaces.items()), 'rev': sorted((u, p.rstrip(':')) for u, p in conv._reverse.items()),
+                    'mapped': conv.map_qname(e.tag), 'tag': e.tag})
+    return out
+
+
+def collapsed_term(case):
+    def decls(ds):
+        return coq_list(['((%s, %s), %s)' % (coq_N(pfx_code(p)[0]), coq_N(pfx_code(p)[1]), coq_N(UCODE[u])) for p, u in ds])
+    ops = ['((%d, %s), (%s, %s))' % (lvl, decls(n['decls']), coq_N(UCODE[n['uri']]), coq_N(LCODE[n['local']]))
+           for n, lvl in preorder(case['doc'])]
+    return 'tr %s (init_state %s) %s' % ('true' if case['mode'] == 'collapsed' else 'false', decls(case['doc']['decls']), coq_list(ops))
+
+
+def check_collapsed(ctx, cases):
+    impl = common.pool_map(subject_collapsed, cases)
+    model = common.coq_eval('C17c', C_IMPORTS, C_DEFS, [collapsed_term(c) for c in cases], shard=100)
+    for c, o, m in zip(cases, impl, model):
+        xml = render(c['doc'])
+        nodes = list(preorder(c['doc']))
+        rep = {'kind': 'collapsed', 'case': c, 'xml': xml, 'impl': o}
+        if isinstance(o, dict) and 'harness_exception' in o:
+            ctx.violation('collapsed mapper run failed: %s' % o['harness_exception'], rep, no_input=True)
+            continue
+        renamed = any(p not in [q for n, _ in nodes for q, _u in n['decls']] for p, _u in o[-1]['ns'])
+        ctx.count(('collapsed', c['mode'], xml), nontrivial=renamed and len(nodes) >= 3)
+        ctx.dist('collapsed_mode', c['mode'])
+        ctx.dist('collapsed_renamed_prefix', renamed)
+        bad = None
+        final = dict(o[-1]['ns'])
+        for k, ((n, lvl), io) in enumerate(zip(nodes, o)):
+            want = ext(n['uri'], n['local'])
+            if io['tag'] != want:
+                raise RuntimeError('harness: rendered tag %r differs from abstract %r' % (io['tag'], want))
+            # primary: the key written now resolves, with the declarations reported at the end, to the expanded name
+            # (names without namespace under a reported default namespace are the known finding F-C17c)
+            got = resolve(io['mapped'], final)
+            if got != want and n['uri'] == '' and final.get(''):
+                ctx.known_finding('F-C17c')
+            elif got != want:
+                bad = ('primary', 'element %s is keyed %r which resolves to %r with the collapsed declarations %r'
+                       % (want, io['mapped'], got, final))
+                break
+            if k >= len(m) or not m[k][0]:
+                bad = ('aux', 'the model runs out of fuel at node %d (C17_collapsed_renaming_terminates)' % k)
+                break
+            _ok, (mn, mr), mkey = m[k]     # Coq prints nested pairs flat: fwd entries are (stem, k, uri)
+            inn = [(pfx_code(p), UCODE[u]) for p, u in io['ns']]
+            irev = sorted((UCODE[u], pfx_code(p)) for u, p in io['rev'])
+            if [((a, b), u) for a, b, u in mn] != inn:
+                bad = ('aux', 'after node %d the namespace map is %r, in the model (coded) %r' % (k, io['ns'], mn))
+                break
+            if sorted((u, tuple(p)) for u, p in mr) != irev:
+                bad = ('aux', 'after node %d the reverse map is %r, in the model (coded) %r' % (k, io['rev'], mr))
+                break
+            if mkey[0] == 'KPre':
+                pm = (tuple(mkey[1]), mkey[2])
+                im = io['mapped'].split(':') if ':' in io['mapped'] and not io['mapped'].startswith('{') else None
+                if im is None or (pfx_code(im[0]), LCODE[im[1]]) != pm:
+                    bad = ('aux', 'node %d: the model keys %s with prefix %r, the implementation writes %r' % (k, want, pm[0], io['mapped']))
+                    break
+            elif mkey[0] == 'KLoc' and io['mapped'] != n['local'] or mkey[0] == 'KExt' and not io['mapped'].startswith('{'):
+                bad = ('aux', 'node %d: the model keys %s as %s, the implementation writes %r' % (k, want, mkey[0], io['mapped']))
+                break
+        if bad:
+            ctx.violation('%s in %s [%s]' % (bad[1], xml, c['mode']),
+                          dict(rep, theorem='C17_collapsed_keys_resolve'), no_input=(bad[0] != 'primary'))
+        ctx.sample({'xml': xml, 'mode': c['mode'], 'collapsed_declarations': o[-1]['ns']}, cap=3)
 
 
 def _ancestors(root, target):
@@ -418,9 +525,12 @@ def run(ctx):
                 'decode/encode with JsonML and default converters (stacked, collapsed and root-only xmlns processing); '
                 'non-trivial = at least 3 nodes and a nested declaration (mapper: a shadowed prefix)')
     check_mapper(ctx, mcases)
+    ccases = [{'doc': gen_doc(rng, max_depth=3, prefixes=C_PREFIXES), 'mode': 'collapsed' if i % 4 else 'root-only'}
+              for i in range(300 if ctx.quick() else 4000)]
+    check_collapsed(ctx, ccases)
     check_e2e(ctx, ecases)
     ctx.assumptions = ['BadgerFish is not used here: its encoder fails on lists of children for reasons unrelated to prefixes (see C05)',
-                       'collapsed / root-only modes are checked end to end only (resolution of the reported keys against the document); the renaming of colliding prefixes is not modelled in Mapper.v',
+                       'collapsed / root-only modes: the renaming model Collapsed.v assumes numeric prefix suffixes without leading zeros',
                        'attribute keys are resolved without the default namespace, as XML prescribes']
 
 
@@ -428,5 +538,7 @@ def replay(ctx, case):
     c = case['case']
     if case.get('kind') == 'e2e':
         check_e2e(ctx, [c])
+    elif case.get('kind') == 'collapsed':
+        check_collapsed(ctx, [c])
     else:
         check_mapper(ctx, [c])
